@@ -3,6 +3,7 @@ package c08
 
 import (
 	"bytes"
+	"errors"
 	"fmt"
 	"reflect"
 	"sort"
@@ -497,6 +498,19 @@ func heads() *core.Family {
 }
 
 // containers: PolicyList / PolicySet / Encoder->Decoder give back the same policies in the documented order.
+// flakyWriter rejects every Write while failing is set and accepts everything otherwise.
+type flakyWriter struct {
+	buf     bytes.Buffer
+	failing bool
+}
+
+func (w *flakyWriter) Write(p []byte) (int, error) {
+	if w.failing {
+		return 0, errors.New("injected writer failure")
+	}
+	return w.buf.Write(p)
+}
+
 func containers() *core.Family {
 	texts := []string{
 		"permit ( principal, action, resource );",
@@ -559,6 +573,36 @@ func containers() *core.Family {
 			for _, p := range pl {
 				if err := enc.Encode(p); err != nil {
 					t.Fail("Encoder-error", doc, "nil", err.Error())
+				}
+			}
+			// a writer that fails during one Encode call (it accepts nothing of that call) and
+			// works again afterwards: the stream holds exactly the policies whose Encode returned nil
+			for f := 0; f < n && f < 6; f++ {
+				fw := &flakyWriter{}
+				fe := cedar.NewEncoder(fw)
+				var okSrc []string
+				for j, p := range pl {
+					fw.failing = j == f
+					if err := fe.Encode(p); err == nil {
+						okSrc = append(okSrc, src[j])
+					} else if j != f {
+						t.Fail("Encoder-error-after-writer-recovered", doc, "nil", err.Error())
+					}
+				}
+				fd := cedar.NewDecoder(bytes.NewReader(fw.buf.Bytes()))
+				var gotSrc []string
+				for {
+					var p cedar.Policy
+					if err := fd.Decode(&p); err != nil {
+						if err.Error() != "EOF" {
+							gotSrc = append(gotSrc, "error: "+err.Error())
+						}
+						break
+					}
+					gotSrc = append(gotSrc, string(p.MarshalCedar()))
+				}
+				if fmt.Sprint(gotSrc) != fmt.Sprint(okSrc) {
+					t.Fail("Encoder-after-failed-write", fmt.Sprintf("%s ; the writer fails during Encode #%d", doc, f), fmt.Sprint(okSrc), fmt.Sprint(gotSrc))
 				}
 			}
 			dec := cedar.NewDecoder(bytes.NewReader(buf.Bytes()))
